@@ -140,6 +140,8 @@ def check_wave(ctx, viol):
     jobs.append({'op': 'roundtrip', 'lo': 1900.0, 'hi': 2100.0, 'n': ng // 4, 'log': False})
     jobs.append({'op': 'roundtrip', 'lo': 100.0, 'hi': 3.0e5, 'n': ng, 'log': True})
     jobs.append({'op': 'roundtrip', 'lo': 2000.0, 'hi': 12000.0, 'n': ng // 2, 'log': False})
+    # the boundary of the second direction: vactoair(v) >= 2000 A starts at v = 2000.6475 A
+    jobs.append({'op': 'roundtrip', 'lo': 2000.0, 'hi': 2001.5, 'n': ng // 4, 'log': False})
     nb = min(C.NPROC, len(jobs))
     outs = C.run_impl_parallel('c19_impl.py', [jobs[k::nb] for k in range(nb)])
     results = [None] * len(jobs)
@@ -433,6 +435,8 @@ def check_filter(ctx, viol):
             viol('C19:filter_thru:weights', 'could not record the weights of filter_thru (np.interp / np.absolute no longer used as expected)',
                  {'kind': 'broken-correspondence', 'item': 'weight recording proxy', 'input': small_in}, False)
             continue
+        if isnum(r.get('min_resp')) and r['min_resp'] < 0:
+            viol('C19:filter_thru:negative-response', 'a filter response curve interpolates to a negative value (%r)' % r['min_resp'], rep0, True)
         if isnum(r['minw']) and r['minw'] < 0:
             viol('C19:filter_thru:negative-weight', 'filter_thru uses a negative weight (%r)' % r['minw'], rep0, True)
         a, b, c = job['a'], job['b'], job['c']
@@ -463,12 +467,13 @@ def check_filter(ctx, viol):
                     vj = r['res_junk'][t][i]
                     if not isnum(vj) or abs(vj - v1) > 1e-9 * (1 + abs(v1)):
                         viol('C19:filter_thru:mask', 'changing the values of masked pixels changes band %s: %r -> %r' % ('ugriz'[i], v1, vj), rep, True)
-                if 'w' in r:
-                    w, fi = r['w'][t][i], r['fi'][t]
-                    if all(isnum(x) for x in w) and all(isnum(x) for x in fi):
+                if 'fitted' in r and 'resp' in r:
+                    # raw ingredients per pixel: fitted d(log lambda) (either sign), interpolated response, (interpolated) flux
+                    ft, rs, fi = r['fitted'][t], r['resp'][t][i], r['fi'][t]
+                    if all(isnum(x) for x in ft) and all(isnum(x) for x in rs) and all(isnum(x) for x in fi):
                         tol = F(1, 10 ** 9) * max(1, int(max(abs(x) for x in fi)) + 1)
-                        pairs = C.coq_list(['(%s, %s)' % (C.qlit(x), C.qlit(y)) for x, y in zip(w, fi)])
-                        terms.append('(CFilter %s %s %s)' % (pairs, C.qlit(v1), C.qlit(tol)))
+                        trip = C.coq_list(['(%s, %s, %s)' % (C.qlit(a_), C.qlit(b_), C.qlit(c_)) for a_, b_, c_ in zip(ft, rs, fi)])
+                        terms.append('(CFilter %s %s %s)' % (trip, C.qlit(v1), C.qlit(tol)))
                         meta.append((ji, t, i, v1, sw))
     cc = C.CoqCases(ctx.work, HEADER, 'run_cases', shard=max(4, len(terms) // C.NPROC + 1))
     verdicts = cc.run(terms, tag='filter') if terms else []
@@ -478,8 +483,9 @@ def check_filter(ctx, viol):
         job = jobs[ji]
         rep = {'input': {k: job[k] for k in ('nT', 'nx', 'loglam0', 'dloglam', 'wave', 'toair', 'cover')}, 'job': job, 'trace': t,
                'band': 'ugriz'[i], 'result': v1, 'sum_weights': sw, 'coq_case': term[:3000], 'verdict': v,
-               'meaning': 'bit 2: result is not the weighted mean of the (interpolated) flux with the implementation\'s own weights '
-                          '(certified checker Spec.wmean_ok, C19_wmean_ok_sound); bit 1: differs from the generated normalisation'}
+               'meaning': 'bit 2: result is not the weighted mean of the (interpolated) flux with weights |fitted d(log lambda)| * response '
+                          '(Spec.weight_S; certified checker Spec.wmean_ok, C19_wmean_ok_sound); bit 1: differs from the generated '
+                          'pixel-width / weight / normalisation expressions applied to the recorded ingredients'}
         if v & 2:
             rep['kind'] = 'failing-input'
             viol('C19:filter_thru:wmean:property', 'filter_thru band %s = %r is not the response-weighted mean of the flux' % ('ugriz'[i], v1), rep, True)
